@@ -218,12 +218,24 @@ func (p *pq) Len() int {
 	return p.in.Len()
 }
 
-func state(p *pq) string {
-	d := p.in.VerifData()
-	if len(d) > 128 {
-		return fmt.Sprintf("len=%d cap=%d dh=%d", p.Len(), p.in.VerifSliceCap(), vlib.Hash(d))
+// white-box view; ok=false when the hooks are the black-box stubs (or the wrapped queue is hidden)
+func wb(p *pq) (data []int, sliceCap int, ok bool) {
+	if p.in == nil {
+		return nil, -1, false
 	}
-	return fmt.Sprintf("len=%d cap=%d data=%s", p.Len(), p.in.VerifSliceCap(), vlib.Ints(d))
+	data, sliceCap = p.in.VerifData(), p.in.VerifSliceCap()
+	return data, sliceCap, data != nil && sliceCap >= 0
+}
+
+func state(p *pq) string {
+	d, c, ok := wb(p)
+	if !ok {
+		return fmt.Sprintf("len=%d wb=na", p.Len())
+	}
+	if len(d) > 128 {
+		return fmt.Sprintf("len=%d cap=%d dh=%d", p.Len(), c, vlib.Hash(d))
+	}
+	return fmt.Sprintf("len=%d cap=%d data=%s", p.Len(), c, vlib.Ints(d))
 }
 
 func qerr(err error) string {
@@ -273,7 +285,11 @@ func run(ops []string, out *vlib.Out, st *stats) {
 				out.Line("%s => %s", line, perr)
 				continue
 			}
-			out.Line("%s => ok capacity=%d %s", line, p.in.Cap(), state(p))
+			capacity := "na"
+			if p.in != nil {
+				capacity = strconv.Itoa(p.in.Cap())
+			}
+			out.Line("%s => ok capacity=%s %s", line, capacity, state(p))
 			continue
 		}
 		if p == nil {
@@ -281,7 +297,7 @@ func run(ops []string, out *vlib.Out, st *stats) {
 			continue
 		}
 		before := state(p)
-		capBefore := p.in.VerifSliceCap()
+		_, capBefore, _ := wb(p)
 		var res string
 		perr := vlib.Catch(func() {
 			switch w[0] {
@@ -289,7 +305,7 @@ func run(ops []string, out *vlib.Out, st *stats) {
 				t, _ := strconv.Atoi(w[1])
 				res = qerr(p.Enqueue(t))
 			case "deq":
-				d := p.in.VerifData()
+				d, _, _ := wb(p)
 				tied := len(d) > 2 && ((len(d) > 2 && cmp(d[1], d[2]) == 0) || (len(d) > 3 && cmp(d[1], d[3]) == 0))
 				v, err := p.Dequeue()
 				res = okv(v, err)
@@ -301,9 +317,17 @@ func run(ops []string, out *vlib.Out, st *stats) {
 			case "len":
 				res = "ok:" + strconv.Itoa(p.Len())
 			case "cap":
-				res = "ok:" + strconv.Itoa(p.in.Cap())
+				if p.in == nil {
+					res = "na" // not reachable through the public wrapper
+				} else {
+					res = "ok:" + strconv.Itoa(p.in.Cap())
+				}
 			case "boundless":
-				res = "ok:" + strconv.FormatBool(p.in.IsBoundless())
+				if p.in == nil {
+					res = "na"
+				} else {
+					res = "ok:" + strconv.FormatBool(p.in.IsBoundless())
+				}
 			default:
 				panic("op " + w[0])
 			}
@@ -312,7 +336,7 @@ func run(ops []string, out *vlib.Out, st *stats) {
 			res = perr
 		}
 		after := state(p)
-		c := p.in.VerifSliceCap()
+		_, c, _ := wb(p)
 		if c < capBefore {
 			st.Shrinks++
 		} else if c > capBefore {
